@@ -859,7 +859,10 @@ def wl_known(ctx, rng):
     elif stratum == 'cli:powergas-defaults':
         # the program with -o stores the model; a PowerGas left at its tabulated coefficients cannot be stored
         # (C16/powergas-write-none), so the program dies instead of producing its spectrum
-        spec = draw_world(rng, powergas_defaults=True)
+        for _ in range(40):
+            spec = draw_world(rng, powergas_defaults=True)
+            if spec['temperature']['kind'] not in ('guillot', 'npoint'):
+                break                 # (those two may reject the atmosphere themselves: a licensed, different exit)
         t = str(ctx.cases)
         xdir, cdir = L.write_world_files(spec, ctx.scratch, t)
         sections = L.sections_from_spec(rng, spec, cl, xdir, cdir, ctx.scratch, t)
